@@ -303,21 +303,39 @@ func c16Ownership(p *Program, r *Report) {
 		ok := true
 		for _, b := range prune.Blocks {
 			for _, in := range b.Instrs {
-				if c := callOf(in); c != nil && strings.HasPrefix(calleeQual(c), "sort.") {
+				if c := callOf(in); c != nil && (strings.HasPrefix(calleeQual(c), "sort.") || strings.HasPrefix(calleeQual(c), "slices.Sort")) && len(c.Args) > 0 {
 					// the sorted slice must be append([]T(nil), param...) — a private copy
-					ac, isC := strip(c.Args[0]).(*ssa.Call)
-					if !isC {
-						ok = false
-						continue
+					// a private copy: append([]T(nil), s...), slices.Clone(s), or make + copy
+					src := strip(c.Args[0])
+					if mi, isMI := src.(*ssa.MakeInterface); isMI { // sort.Sort(sort.StringSlice(x)) etc.
+						src = strip(mi.X)
 					}
-					bi, isB := ac.Call.Value.(*ssa.Builtin)
-					if !isB || bi.Name() != "append" || !isNilConst(ac.Call.Args[0]) {
+					private := false
+					switch x := src.(type) {
+					case *ssa.Call:
+						if bi, isB := x.Call.Value.(*ssa.Builtin); isB && bi.Name() == "append" && isNilConst(x.Call.Args[0]) {
+							private = true
+						}
+						if q := calleeQual(&x.Call); strings.HasPrefix(q, "slices.Clone") || strings.HasPrefix(q, "slices.Sorted") || strings.HasPrefix(q, "slices.Collect") {
+							private = true
+						}
+					case *ssa.MakeSlice:
+						private = true
+					case *ssa.Slice:
+						if _, isMk := strip(x.X).(*ssa.MakeSlice); isMk {
+							private = true
+						}
+						if al, isAl := strip(x.X).(*ssa.Alloc); isAl && al.Heap {
+							private = true // make([]T, constant) compiles to new [N]T + slice
+						}
+					}
+					if !private {
 						ok = false
 					}
 				}
 			}
 		}
-		r.Check(ok, "PruneWithMax sorts a copy of its slice argument", prune.Pos(), "the slice passed by the caller is copied (append to nil) before sort/truncate")
+		r.Check(ok, "PruneWithMax sorts a copy of its slice argument", prune.Pos(), "the slice passed by the caller is copied (append to nil, slices.Clone, make+copy) before sort/truncate")
 	}
 	if n == 0 {
 		r.Unresolved("no mutation of a version vector map found")
@@ -736,9 +754,20 @@ func c17VectorAssign(p *Program, r *Report) {
 	vvF := fieldVar(vr.View, "VersionVector")
 	steps := p.closure([]*ssa.Function{vr.Merge}, cgOpts{ModuleOnly: true, MaxDepth: 3})
 	n := 0
+	// the merge with its single-use helpers spliced in: a helper's receiver and arguments resolve to the merge's own
+	mg := p.igx(vr.Merge)
 	for fn := range steps {
 		if fn.Signature.Recv() == nil || namedOf(fn.Signature.Recv().Type()) != vr.View {
 			continue
+		}
+		res := func(v ssa.Value) ssa.Value { return strip(v) }
+		own, other := ssa.Value(fn.Params[0]), ssa.Value(nil)
+		if len(fn.Params) > 1 {
+			other = fn.Params[1]
+		}
+		if mg.owns(p, fn) && fn != vr.Merge {
+			res = mg.res
+			own, other = vr.Merge.Params[0], vr.Merge.Params[1]
 		}
 		for _, b := range fn.Blocks {
 			for _, in := range b.Instrs {
@@ -747,7 +776,7 @@ func c17VectorAssign(p *Program, r *Report) {
 					continue
 				}
 				f, base := fieldAddr(st.Addr)
-				if f != vvF || strip(base) != ssa.Value(fn.Params[0]) {
+				if f != vvF || res(base) != own {
 					continue
 				}
 				n++
@@ -758,13 +787,13 @@ func c17VectorAssign(p *Program, r *Report) {
 					switch c.Call.StaticCallee().Name() {
 					case "Merge":
 						// Merge(own, other.VersionVector)
-						of, ob := fieldLoad(strip(c.Call.Args[0]))
-						af, ab := fieldLoad(strip(c.Call.Args[1]))
-						good = of == vvF && strip(ob) == ssa.Value(fn.Params[0]) && af == vvF && len(fn.Params) > 1 && strip(ab) == ssa.Value(fn.Params[1])
+						of, ob := fieldLoad(res(c.Call.Args[0]))
+						af, ab := fieldLoad(res(c.Call.Args[1]))
+						good = of == vvF && ob != nil && res(ob) == own && af == vvF && other != nil && ab != nil && res(ab) == other
 						why = "join of the own and the other view's vector"
 					case "PruneWithMax", "Prune":
-						of, ob := fieldLoad(strip(c.Call.Args[0]))
-						good = of == vvF && strip(ob) == ssa.Value(fn.Params[0])
+						of, ob := fieldLoad(res(c.Call.Args[0]))
+						good = of == vvF && ob != nil && res(ob) == own
 						why = "own vector pruned to the current members"
 					}
 				}
@@ -795,7 +824,7 @@ func c17NoShortcut(p *Program, r *Report) {
 	other := fn.Params[1]
 	g := p.igx(fn)
 	fromOtherMembers := func(v ssa.Value) bool {
-		f, b := fieldLoad(strip(v))
+		f, b := fieldLoad(g.res(v))
 		return f == vr.Members && b != nil && g.res(b) == ssa.Value(other)
 	}
 	ranges := nodesWhere(g, func(in ssa.Instruction) bool {
@@ -884,6 +913,9 @@ func c17Changed(p *Program, r *Report) {
 	}
 	trueE := map[edge]bool{}
 	monotone := true
+	linked := map[*ssa.Call]bool{}
+relink:
+	monotone = true
 	for v := range chain {
 		ph := v.(*ssa.Phi)
 		blk := ph.Block()
@@ -906,8 +938,20 @@ func c17Changed(p *Program, r *Report) {
 					for _, pp := range pred.Preds {
 						_ = pp
 					}
-					// accept false only when the predecessor cannot be reached through a true edge
-					if g.Reach(edgeTargets(trueE), nil, nil)[from] {
+					// accept false only when the predecessor cannot be reached through a true edge; after
+					// `if v.helper(…)` the false edge is the helper's own result, so the helper's true edges do not count
+					starts := trueE
+					if ifi, isIf := pred.Instrs[len(pred.Instrs)-1].(*ssa.If); isIf {
+						if c, isC := strip(ifi.Cond).(*ssa.Call); isC && linked[c] {
+							starts = map[edge]bool{}
+							for te := range trueE {
+								if g.Nodes[te.from].Parent() != g.Inlined[c] {
+									starts[te] = true
+								}
+							}
+						}
+					}
+					if g.Reach(edgeTargets(starts), nil, nil)[from] {
 						init = false
 					}
 					if !init {
@@ -915,6 +959,37 @@ func c17Changed(p *Program, r *Report) {
 					}
 				}
 			}
+		}
+	}
+	// `if v.helper(…) { changed = true }`: the helper's own boolean result joins the chain when the branch taken on a true
+	// result cannot reach a return without setting changed
+	for _, c := range g.inlinedCalls() {
+		y := g.Inlined[c]
+		if linked[c] || y.Signature.Results().Len() != 1 || !isBool(y.Signature.Results().At(0).Type()) {
+			continue
+		}
+		tr, _ := callEdges(g, func(x *ssa.Call) bool { return x == c })
+		if len(tr) == 0 {
+			continue
+		}
+		sets := true
+		for te := range tr {
+			if !trueE[te] && anyIn(g.Reach([]int{te.to}, nil, trueE), g.Exits) {
+				sets = false
+			}
+		}
+		if !sets {
+			continue
+		}
+		linked[c] = true
+		before := len(chain)
+		for _, b := range y.Blocks {
+			if ret, isR := b.Instrs[len(b.Instrs)-1].(*ssa.Return); isR {
+				collect(retOperand(ret, 0))
+			}
+		}
+		if len(chain) != before {
+			goto relink
 		}
 	}
 	if len(chain) == 0 || len(trueE) == 0 {
@@ -1566,7 +1641,6 @@ func c18SeedsAlwaysCandidates(p *Program, r *Report) {
 	}
 	r.Check(okAll, "seed loops range over the configured seed list", bad, fmt.Sprintf("all %d uses of the seed list in loops take the value returned by the seed source on every path (no path substitutes nil / another list)", n))
 }
-
 
 func isStringSlice(t types.Type) bool {
 	sl, ok := t.Underlying().(*types.Slice)
